@@ -6,6 +6,8 @@ package main
 import (
 	"context"
 	"fmt"
+	"hash/crc32"
+	"strings"
 	"sync"
 	"time"
 
@@ -104,6 +106,7 @@ func c04Worker(w *W) {
 	y := installYielder(uint64(w.Spec.Seed)+uint64(w.Spec.Shard), 0, 0)
 	n := int(w.Spec.N)
 	race := w.Spec.Flavour == "race"
+	orders := map[uint32]bool{}
 	for ci := 0; ci < n; ci++ {
 		c := asyncCase{
 			Policy:    []string{"Block", "Discard", "DiscardOldest"}[(ci+w.Spec.Shard)%3],
@@ -222,11 +225,15 @@ func c04Worker(w *W) {
 		delivered := map[string]int{}
 		nDelivered := 0
 		ghost := ""
+		orderSig := crc32.NewIEEE()
 		for _, it := range rec.take() {
 			if it.Sink != sinkName {
 				continue
 			}
 			id := idOf(it.JSON)
+			if i := strings.IndexByte(id, 'c'); i > 0 {
+				orderSig.Write([]byte(id[:i])) // producer part only: the interleaving of producers as seen by the appender
+			}
 			if id == "" {
 				ghost = trunc(string(it.JSON), 200)
 			}
@@ -283,6 +290,7 @@ func c04Worker(w *W) {
 		w.Count("items_submitted", int64(c.Producers*c.PerProd))
 		w.Count("items_delivered", int64(nDelivered))
 		w.Count("items_discarded", discarded)
+		orders[orderSig.Sum32()] = true
 		if !bad {
 			dk := "nodrop"
 			if discarded > 0 {
@@ -297,6 +305,7 @@ func c04Worker(w *W) {
 	for k, v := range y.counts() {
 		w.Count("yield_"+k, v)
 	}
+	w.Count("distinct_producer_interleavings_seen_at_the_appender", int64(len(orders)))
 }
 
 func init() {
